@@ -223,6 +223,9 @@ KINDS = {
     "any": ("any", "rtlib.MkAny(%d)"), "err": ("error", "rtlib.MkErr(%d)"),
     "LN": ("LN", "LN(rtlib.MkInt(%d))"),
     "T": ("T", "rtlib.MkStr(%d)"), "S": ("S", "rtlib.MkInt(%d)"),
+    # a map type that can clone itself: forwarding or recording a copy instead of the value shows
+    # in the token (identity of the map)
+    "CM": ("CM", "CM(rtlib.MkMap(%d))"),
     # named func types whose de-capitalised names are predeclared identifiers the generated body
     # uses (parameters only, always the nil func: token 0)
     "Panic": ("Panic", "Panic(nil) /*%d*/"), "Nil": ("Nil", "Nil(nil) /*%d*/"), "Append": ("Append", "Append(nil) /*%d*/"),
@@ -234,7 +237,7 @@ MNAMES = ["Get", "Set", "Do", "Run", "Close", "Put", "List", "Find", "Id", "Url"
 
 def gen_iface(rnd, idx):
     generic = rnd.random() < 0.3
-    kinds = ["int", "string", "pint", "sint", "map", "chan", "any", "err", "LN"] + (["T", "S"] if generic else [])
+    kinds = ["int", "string", "pint", "sint", "map", "chan", "any", "err", "LN", "CM"] + (["T", "S"] if generic else [])
     methods = []
     for name in rnd.sample(MNAMES, rnd.choice([1, 2, 2, 3, 4])):
         np_ = rnd.choice([0, 1, 2, 2, 3, 5])
@@ -256,7 +259,9 @@ def gen_iface(rnd, idx):
     if rnd.random() < 0.3:
         methods.append({"name": "Hook", "params": [{"name": "", "kind": rnd.choice(FUNC_KINDS)}], "results": [],
                         "variadic": None, "keep_nil": True})
-    return {"name": "I%d" % idx, "generic": generic, "methods": methods}
+    # some interfaces get their first method through an embedded interface (same method set)
+    return {"name": "I%d" % idx, "generic": generic, "methods": methods,
+            "embed": (not generic) and len(methods) >= 2 and rnd.random() < 0.35}
 
 
 def gotype(k):
@@ -288,9 +293,14 @@ def iface_src(pkg, it):
         if len(m["results"]) > 1:
             rs = "(" + rs + ")"
         lines.append("\t%s(%s) %s" % (m["name"], ps, rs))
-    return ("package %s\n\ntype LN int\ntype LC interface{ ~int | ~int64 }\n\n"
-            "// Panic, Nil and Append are func types named like builtins.\ntype Panic func(v any)\ntype Nil func()\ntype Append func(int)\n\n// %s is generated.\ntype %s%s interface {\n%s\n}\n"
-            % (pkg, it["name"], it["name"], tdecl, "\n".join(lines)))
+    base = ""
+    if it.get("embed"):
+        base = "// B%s is embedded by %s.\ntype B%s interface {\n%s\n}\n\n" % (it["name"], it["name"], it["name"], lines[0])
+        lines[0] = "\tB%s" % it["name"]
+    return (("package %s\n\ntype LN int\ntype LC interface{ ~int | ~int64 }\n\n// CM can clone itself.\ntype CM map[string]int\n\n"
+             "// Clone returns a copy.\nfunc (c CM) Clone() CM {\n\tout := CM{}\n\tfor k, v := range c {\n\t\tout[k] = v\n\t}\n\treturn out\n}\n\n" % pkg) + base +
+            ("// Panic, Nil and Append are func types named like builtins.\ntype Panic func(v any)\ntype Nil func()\ntype Append func(int)\n\n// %s is generated.\ntype %s%s interface {\n%s\n}\n"
+             % (it["name"], it["name"], tdecl, "\n".join(lines))))
 
 
 def gen_script(rnd, it, flags, n_ops):
